@@ -413,6 +413,170 @@ class FsHoSrv(HoSrv):
         self.app = Answers(answers)
 
 
+# ---------------------------------------------------------------- concurrent transfers over one link
+class SlowSock(object):
+    """a slow consumer: recv() is delayed until the link has done k more turns (PDUs exchanged) since the
+    previous recv() - the receive queue is not drained within one link turn"""
+
+    def __init__(self, sock, pipe, k):
+        self._sock, self._pipe, self._k = sock, pipe, k
+        self._next = 0
+
+    def recv(self):
+        import time as _t
+        t0 = _t.time()
+        while len(self._pipe.frames) < self._next and _t.time() - t0 < llcpair.LIMIT:
+            _t.sleep(0.0002)
+        data = self._sock.recv()
+        self._next = len(self._pipe.frames) + self._k
+        return data
+
+    def __getattr__(self, name):
+        return getattr(self._sock, name)
+
+
+class CcSnepSrv(nfc.snep.SnepServer):
+    """SNEP server for concurrent runs: answers are a function of the request (no shared script)"""
+
+    def __init__(self, llc, recv_miu, recv_buf, responses, slow=None):
+        nfc.snep.SnepServer.__init__(self, llc, max_acceptable_length=0x100000, recv_miu=recv_miu, recv_buf=recv_buf)
+        self.daemon = True
+        self.log, self.responses, self.slow = [], responses, slow
+
+    def _serve(self, client_socket):
+        if self.slow:
+            client_socket = SlowSock(client_socket, *self.slow)
+        return nfc.snep.SnepServer._serve(self, client_socket)
+
+    def process_put_request(self, records):
+        self.log.append('put:' + H(enc(records)))
+        return 0x81
+
+    def process_get_request(self, records):
+        rq = enc(records)
+        self.log.append('get:' + H(rq))
+        return list(ndef.message_decoder(self.responses[rq], known_types={}))
+
+
+class CcHoSrv(nfc.handover.HandoverServer):
+    def __init__(self, llc, recv_miu, recv_buf, responses, slow=None):
+        nfc.handover.HandoverServer.__init__(self, llc, recv_miu=recv_miu, recv_buf=recv_buf)
+        self.daemon = True
+        self.log, self.responses, self.slow = [], responses, slow
+
+    def serve(self, socket):
+        if self.slow:
+            socket = SlowSock(socket, *self.slow)
+        return nfc.handover.HandoverServer.serve(self, socket)
+
+    def process_handover_request_message(self, records):
+        rq = enc(records)
+        self.log.append('ho:' + H(rq))
+        return list(ndef.message_decoder(self.responses[rq], 'relax'))
+
+
+def agf_members(frame):
+    """number of PDUs inside an LLCP AGF PDU (0 for any other PDU)"""
+    if frame[:2] != b'\x00\x80':
+        return 0
+    n, i = 0, 2
+    while i + 2 <= len(frame):
+        i += 2 + (frame[i] << 8 | frame[i + 1])
+        n += 1
+    return n
+
+
+def concurrent_run(cfg, jobs):
+    """servers (SNEP + handover) on BOTH LLCs, every job is a client thread on its side talking to the
+    server of the other side, all at the same time over one link.
+    job: dict(side, kind 'snep'|'ho', ops, rsp {request octets: response octets}, cl_miu, cl_rw, slow)"""
+    link = llcpair.Link({'miu': cfg['miu_i'], 'agf': cfg['agf']}, {'miu': cfg['miu_t'], 'agf': cfg['agf']}, dep=bool(cfg.get('dep')))
+    rsp = {'i': {}, 't': {}}
+    for j in jobs:
+        rsp['t' if j['side'] == 'i' else 'i'].update(j.get('rsp', {}))
+    slow = (link.pipe, cfg['srv_slow']) if cfg.get('srv_slow') else None
+    snep = {sd: CcSnepSrv(link.llc[sd], cfg['srv_miu'], cfg['srv_rw'], rsp[sd], slow) for sd in 'it'}
+    ho = {sd: CcHoSrv(link.llc[sd], cfg['srv_miu'], cfg['srv_rw'], rsp[sd], slow) for sd in 'it'}
+    for x in list(snep.values()) + list(ho.values()):
+        x.start()
+    link.start()
+    results = [None] * len(jobs)
+
+    def client(n, j):
+        llc = link.llc[j['side']]
+        out = []
+        try:
+            if j['kind'] == 'snep':
+                sock = nfc.llcp.Socket(llc, nfc.llcp.DATA_LINK_CONNECTION)
+                sock.setsockopt(nfc.llcp.SO_RCVMIU, j['cl_miu'])
+                sock.setsockopt(nfc.llcp.SO_RCVBUF, j['cl_rw'])
+                sock.connect('urn:nfc:sn:snep')
+                use = SlowSock(sock, link.pipe, j['slow']) if j.get('slow') else sock
+                for op in j['ops']:
+                    c = nfc.snep.SnepClient(llc, max_ndef_msg_recv_size=0x100000)
+                    c.socket, c.send_miu = use, sock.getsockopt(nfc.llcp.SO_SNDMIU)
+                    try:
+                        if op[0] == 'put':
+                            r = c.put_octets(op[1], timeout=8.0)
+                            out.append({True: 'true', False: 'false'}.get(r, repr(r)))
+                        else:
+                            r = c.get_octets(op[1], timeout=8.0)
+                            out.append('none' if r is None else 'octets:' + H(bytes(r)))
+                    except nfc.snep.SnepError as e:
+                        out.append('sneperror:%d' % e.errno)
+            else:
+                hc = nfc.handover.HandoverClient(llc)
+                hc.connect(recv_miu=j['cl_miu'], recv_buf=j['cl_rw'])
+                sock = hc.socket
+                if j.get('slow'):
+                    hc.socket = SlowSock(sock, link.pipe, j['slow'])
+                for op in j['ops']:
+                    if not hc.send_octets(op[1]):
+                        out.append('sendfailed')
+                        continue
+                    r = hc.recv_octets(timeout=8.0)
+                    out.append('none' if r is None else 'octets:' + H(bytes(r)))
+        except nfc.llcp.Error as e:
+            out.append('llcperror:%d' % e.errno)
+        results[n] = out
+        try:
+            sock.close()
+        except Exception:  # noqa - connection release is not what is assessed here
+            pass
+
+    import threading as _th
+    ths = []
+    for n, j in enumerate(jobs):
+        th = _th.Thread(target=client, args=(n, j))
+        th.daemon = True
+        th.start()
+        ths.append(th)
+    import time as _t
+    t0 = _t.time()
+    # a transfer that is still unfinished after `budget` link turns (PDU exchanges; idle turns are SYMM) has
+    # stalled: this is decided in link turns, not in seconds, so machine load cannot cause it
+    nfr = sum(len(op[1]) + sum(len(v) for v in j.get('rsp', {}).values()) for j in jobs for op in j['ops']) // 100
+    budget = 8000 + 60 * nfr
+    start = len(link.pipe.frames)
+    stalled = False
+    while any(r is None for r in results):
+        if len(link.pipe.frames) - start > budget:
+            stalled = True
+            break
+        if _t.time() - t0 > 6 * llcpair.LIMIT:
+            break
+        _t.sleep(0.002)
+    done = all(r is not None for r in results)
+    logs = {sd: sorted(snep[sd].log + ho[sd].log) for sd in 'it'}
+    turns = len(link.pipe.frames) - start
+    link.close()
+    if not done and not stalled:
+        raise llcpair.Inconclusive('a concurrent transfer did not finish')
+    agf = [agf_members(f) for _, f in link.pipe.frames] if not cfg.get('dep') else []
+    return {'results': [r if r is not None else ['!stalled'] for r in results], 'logs': logs, 'frames': len(link.pipe.frames),
+            'agf2': sum(1 for n in agf if n >= 2), 'stalled': stalled, 'turns': turns, 'budget': budget}
+
+
 def history_api(segments):
     """the calls made on the SnepClient object: r = request, c<k> = connect(SERVICES[k]), x = close()"""
     out = []
@@ -1181,6 +1345,89 @@ def main():
             segs.append(('session', 1, [opr(*miu1) for _ in range(2)]))
         return segs
 
+    # ------------------------------------------------------------ (5) several transfers at once over one link
+    def fmt_jobs(jobs):
+        return [dict(side=j['side'], kind=j['kind'], ops=[fmt_op(o) for o in j['ops']], cl_miu=j['cl_miu'], cl_rw=j['cl_rw'],
+                     slow=j.get('slow', 0), rsp=[[H(k), H(v)] for k, v in j.get('rsp', {}).items()]) for j in jobs]
+
+    def parse_jobs(js):
+        def b(h):
+            return b'' if h == '-' else bytes.fromhex(h)
+        return [dict(side=j['side'], kind=j['kind'], ops=[parse_op(t) for t in j['ops']], cl_miu=j['cl_miu'], cl_rw=j['cl_rw'],
+                     slow=j.get('slow', 0), rsp={b(k): b(v) for k, v in j['rsp']}) for j in js]
+
+    def concurrent(cfg, jobs, tag):
+        """SNEP / handover clients AND servers on both sides, all jobs at the same time (aggregated frames,
+        interleaved connections, slow consumers).  Monitor only (the model is per connection): every message
+        exactly once at the peer server, every client gets its result."""
+        if any(o[1] is None for j in jobs for o in j['ops']) or any(v is None for j in jobs for v in j.get('rsp', {}).values()):
+            ck.count('corpus-case-not-generated')
+            return
+        eres, elogs = [], {'i': [], 't': []}
+        for j in jobs:
+            eres.append(['true' if o[0] == 'put' else 'octets:' + H(j['rsp'][o[1]]) for o in j['ops']])
+            for o in j['ops']:
+                elogs['t' if j['side'] == 'i' else 'i'].append({'put': 'put:', 'get': 'get:', 'ho': 'ho:'}[o[0]] + H(o[1]))
+        elogs = {sd: sorted(v) for sd, v in elogs.items()}
+        case = {'concurrent': True, 'tag': tag, 'cfg': cfg, 'jobs': fmt_jobs(jobs)}
+        obs = None
+        t_cc = _t.time()
+        for attempt in range(2):       # a disagreement must reproduce (real threads)
+            try:
+                obs = concurrent_run(cfg, jobs)
+            except llcpair.Inconclusive:
+                ck.count('fullstack-inconclusive')
+                obs = None
+                continue
+            if obs['logs'] == elogs and obs['results'] == eres:
+                break
+        if obs is None:
+            return
+        ck.count('concurrent-' + tag)
+        if os.environ.get('C06_DEBUG'):
+            sys.stderr.write('CONCURRENT %s %.2fs frames=%d agf2=%d stalled=%s\n' % (cfg, _t.time() - t_cc, obs['frames'], obs['agf2'], obs['stalled']))
+        ck.cov['agf_frames_with_2plus_members'] = ck.cov.get('agf_frames_with_2plus_members', 0) + obs['agf2']
+        ck.case(('cc', tag, str(cfg), str(case['jobs'])[:2000]), True,
+                {'kind': 'concurrent ' + tag, 'cfg': cfg, 'jobs': [(j['side'], j['kind'], [len(o[1]) for o in j['ops']]) for j in jobs],
+                 'pdus': obs['frames'], 'agf_2plus': obs['agf2']})
+        if obs['stalled']:
+            ck.violation('concurrent-%s-stalled' % tag, 'transfers running at the same time over one link: a transfer was still '
+                         'unfinished after %d link turns (budget %d) on a live link - a PDU was lost' % (obs['turns'], obs['budget']),
+                         dict(case, got=[[clip(x) for x in r] for r in obs['results']]))
+        elif obs['logs'] != elogs:
+            ck.violation('concurrent-%s-delivery' % tag, 'transfers running at the same time over one link: the server applications did '
+                         'not receive exactly the messages sent, once each',
+                         dict(case, missing={sd: [clip(x) for x in elogs[sd] if x not in obs['logs'][sd]][:4] for sd in 'it'},
+                              unexpected={sd: [clip(x) for x in obs['logs'][sd] if x not in elogs[sd]][:4] for sd in 'it'}))
+        elif obs['results'] != eres:
+            ck.violation('concurrent-%s-client-result' % tag, 'transfers running at the same time over one link: a client did not '
+                         'obtain the expected result', dict(case, got=[[clip(x) for x in r] for r in obs['results']]))
+
+    def cc_job(side, kind, nops, size, miu, cl_rw, slow):
+        ops, rsp = [], {}
+        for _ in range(nops):
+            if kind == 'snep':
+                msg = ndef_msg(rng, size + rng.randrange(-7, 8))
+                if rng.random() < 0.5:
+                    ops.append(('put', msg))
+                else:
+                    ops.append(('get', msg, 0x100000))
+                    rsp[msg] = ndef_msg(rng, size + rng.randrange(-7, 8))
+            else:
+                rq = ho_msg(rng, max(60, size + rng.randrange(-7, 8)), False)
+                ops.append(('ho', rq))
+                rsp[rq] = ho_msg(rng, max(60, size + rng.randrange(-7, 8)), True)
+        return dict(side=side, kind=kind, ops=ops, rsp=rsp, cl_miu=miu, cl_rw=cl_rw, slow=slow)
+
+    def cc_case(nfrag, rw, slow, miu=128, dep=False, tag='both-sides'):
+        cfgc = {'miu_i': miu, 'miu_t': miu, 'agf': True, 'srv_miu': miu, 'srv_rw': rw, 'srv_slow': slow}
+        if dep:
+            cfgc['dep'] = True
+        size = nfrag * miu
+        jobs = [cc_job('i', 'snep', 2, size, miu, rw, slow), cc_job('t', 'snep', 2, size, miu, rw, slow),
+                cc_job(rng.choice('it'), 'ho', 1, size, miu, rw, slow), cc_job(rng.choice('it'), 'snep', 1, 2 * miu, miu, rw, 0)]
+        concurrent(cfgc, jobs, tag)
+
     def aligned_bounds(miu, hdr, nrec=None, kmax=5):
         """record boundaries at k*MIU - hdr + (-1|0|+1) for increasing k (offsets inside the message)"""
         nrec = nrec or rng.choice([2, 2, 3, 4])
@@ -1211,7 +1458,9 @@ def main():
 
     if ck.replay:
         c = json.load(open(ck.replay)).get('case') or {}
-        if c.get('history'):
+        if c.get('concurrent'):
+            concurrent(c['cfg'], parse_jobs(c['jobs']), c.get('tag', 'replay'))
+        elif c.get('history'):
             history(parse_segments(c['segments']), c['mius'], c.get('cfg'))
             flush()
         elif c.get('fullstack'):
@@ -1312,6 +1561,12 @@ def main():
         fullstack('ho', [('ho', rq)], cfgd, 0, [('h', sl)], 'dep-exchange',
                   {'log': ['ho:' + H(rq)], 'results': ['octets:' + H(sl)]})
     flush()
+
+    # clients and servers on both sides at once (aggregated frames with 2+ PDUs), receive windows 1 and 2, slow
+    # consumers that read every 2nd / 3rd link turn, messages of more than 16, 32 and 48 fragments
+    for nfrag, rw, slow in ((5, 1, 0), (18, 2, 3), (34, 1, 2), (50, 1, 3), (20, 2, 0)):
+        cc_case(nfrag, rw, slow)
+    cc_case(3, 2, 2, miu=1024, dep=True)
 
     # one SnepClient object: one-shot requests, then connect(second service) + requests + close, then one-shot again
     m_ = [ndef_msg(rng, n) for n in (40, 300, 7, 500, 129, 60)]
@@ -1557,11 +1812,18 @@ def main():
             flush()
     flush()
 
+    n_cc = 10 if quick else 150
+    if os.environ.get('C06_ONLY_FULLSTACK'):
+        n_cc = 0
+    for it in range(n_cc):
+        cc_case(rng.choice([2, 6, 17, 20, 33, 40, 49]), rng.choice([1, 1, 2, 15]), rng.choice([0, 0, 2, 3, 5]),
+                miu=rng.choice([128, 128, 140, 248]), dep=rng.random() < 0.2)
     tick('fullstack')
     ck.cov['traces_validated_against_impl'] = nval[0]
     ck.cov['correspondence_mismatches'] = nmis[0]
     ck.finish(level='proof',
-              rule='corpus first (full stack through the real nfc.dep exchange with link MIU 248/500/1024/2175 and I PDUs chained over 3+ '
+              rule='corpus first (clients and servers on both sides transferring at once over one link, slow consumers with receive '
+                   'window 1/2 and messages of 17-50 fragments; full stack through the real nfc.dep exchange with link MIU 248/500/1024/2175 and I PDUs chained over 3+ '
                    'NFC-DEP frames in both directions; histories of one SnepClient object: one-shot requests, connect(second service) + requests + close, '
                    'one-shot again, against two servers, coupled and full-stack; second handover request on a connection; multi-record messages whose record boundaries fall '
                    'exactly on fragment boundaries; full-stack transfers of 17-35 fragments per direction with receive window '
